@@ -500,6 +500,12 @@ def discipline(ctx, f, ix, defs, stacks, todo_id):
         pushes = [n for n in walk(cl.get("body", {})) if n.get("k") == "mcall" and n["name"] == "push" and is_local(n["recv"], todo_id)] if cb else []
         child_push = [p for p in pushes if any(x.get("k") == "local" and x["id"] == cb[1] for x in walk(p["args"][0]))]
         parent_push = [p for p in pushes if p not in child_push]
+        outside = False
+        if not parent_push and cb:
+            # the parent may be re-pushed once before the children are visited instead of inside the visitor
+            lp = ix.enclosing(fec[0], ("while", "loop", "for"))
+            parent_push = [n for n in (walk(lp["body"]) if lp else []) if n.get("k") == "mcall" and n["name"] == "push" and is_local(n["recv"], todo_id) and not contains(cl, n)]
+            outside = True
         roots = [n for n in ix.nodes if n.get("k") == "mcall" and n["name"] == "push" and is_local(n["recv"], todo_id) and not ix.enclosing(n, ("while", "loop", "for"))]
         ok = len(child_push) == 1 and len(parent_push) == 1 and len(roots) == 1
         if ok:
@@ -507,6 +513,8 @@ def discipline(ctx, f, ix, defs, stacks, todo_id):
             rc = ix.regions[id(child_push[0])]
             rcl = ix.regions[id(cl)]
             ok = len(rc) == len(rcl) + 1 and ix.precedes(parent_push[0], child_push[0])
+            if outside:
+                ok = ok and ix.regions[id(parent_push[0])] == ix.regions[id(fec[0])]
             ce, ctag = entry(child_push[0])
             pe, ptag = entry(parent_push[0])
             re_, rtag = entry(roots[0])
@@ -547,9 +555,10 @@ def shortcircuit(ctx, f, ix, defs, stacks, todo_id):
             if ok:
                 sim = Sim([], [], stacks, {})
                 pushes = [x for x in walk(hit) if x.get("k") == "mcall" and x["name"] == "push" and sim.which(x["recv"]) == st]
-                conts = [x for x in walk(hit) if x.get("k") == "continue"]
                 todo_p = [x for x in walk(hit) if x.get("k") == "mcall" and x["name"] == "push" and is_local(x["recv"], todo_id)]
-                ok = len(pushes) == 1 and is_local(pushes[0]["args"][0], vb[1]) and len(conts) == 1 and not todo_p
+                # after the hit branch the iteration ends before the children are scheduled (a `continue` in the branch, or right after it)
+                ends = not norm_.may_reach_after(ix, hit, fec[0])
+                ok = len(pushes) == 1 and is_local(pushes[0]["args"][0], vb[1]) and ends and not todo_p
                 why = "the hit branch must push the supplied value and continue without scheduling children"
         ctx.inst("R06.3", "shortcircuit:%s" % getter, bool(ok), gs[0]["sp"] if gs else f["span"], why)
     # value stores look up by reference
